@@ -28,6 +28,9 @@ SYSTEMS = {
     "self": [("d0", "y0", {"y0": Fraction(1, 4), "y1": Fraction(1, 2)}, "x0"), ("d1", "y1", {"y0": Fraction(1, 3)}, "x1")],
     "two_scc": [("d0", "y0", {"y1": Fraction(1, 2)}, "x0"), ("d1", "y1", {"y0": Fraction(1, 3)}, None),
                 ("d2", "y2", {"y0": Fraction(1, 1), "y3": Fraction(1, 4)}, None), ("d3", "y3", {"y2": Fraction(-1, 2)}, "x1")],
+    # acyclic ("triangular") systems: the fixed-point iterations terminate exactly after at most n sweeps, in any listing order
+    "tri3": [("d0", "y0", {}, "x0"), ("d1", "y1", {"y0": Fraction(2, 1)}, "x1"), ("d2", "y2", {"y1": Fraction(1, 3), "y0": Fraction(-1, 1)}, None)],
+    "tri2": [("d0", "y0", {}, "x0"), ("d1", "y1", {"y0": Fraction(-3, 2)}, None)],
     "weak": [("d0", "y0", {}, "x0"), ("d1", "y1", {"y0": Fraction(2, 1), "y2": Fraction(1, 2)}, None), ("d2", "y2", {"y1": Fraction(1, 3)}, "x1")],
 }
 
@@ -197,6 +200,10 @@ def h_converged(ctx, cfg):
     # the MDA claims convergence when it stops before max_mda_iter sweeps, or when the residual it reports is within the tolerance
     n_iter = len(mda.residual_history)
     small = ctx.true() if n_iter < cfg["K"] else ctx.le(res, tol)
+    if cfg.get("terminates"):
+        # acyclic system and max_mda_iter > number of disciplines: the iteration has reached the exact solution (or claimed
+        # convergence earlier), so the returned couplings must satisfy every discipline whatever stopped the MDA
+        small = ctx.true()
     ctx.observe("n_iter", [float(n_iter)])
     g = _G(system, x, yr)
     nA = _norm_inf_A(system)
@@ -230,6 +237,11 @@ def configs(tier):
                 out.append(("converged", dict(system=system, mda=mda, K=K, omega=0.5, scaling="no_scaling")))
                 if not quick:
                     out.append(("converged", dict(system=system, mda=mda, K=K, scaling="n_coupling_variables")))
+    for system, K in (("tri2", 3), ("tri3", 4)):
+        n = len(SYSTEMS[system])
+        for mda in ("jacobi", "gs"):
+            for order in (list(range(n)), list(reversed(range(n)))):
+                out.append(("converged", dict(system=system, mda=mda, K=K, order=order, scaling="no_scaling", terminates=True)))
     return out
 
 
